@@ -24,6 +24,13 @@ NOTES = ("All checks are property-based tests / fuzzers over generated inputs (D
 NOT_YET = {}
 
 TEXT = {
+    "C15": {
+        "engine": "engine-S",
+        "technique": "fault injection driven by property-based generation: every reference field located exactly (hook H3) and overwritten by each corruption kind; crash/hang oracle in a forked sanitised child running load, query battery, copy, default save, reload",
+        "level_text": "Exhaustive single-fault enumeration (every reference field x 7 corruption kinds, with several targets for ancestor/in-range) over the sample files (quick: files < 16 KB, thorough: all 26) plus thousands of random 1-3-fault combinations on samples and synthesised files; any sanitizer report, signal, stack overflow, error return or reproduced 20 s hang is a violation.",
+        "level_note": "Faults are 4-byte overwrites of fields that pass through NiBlockRef::Sync in the raw-saved file; for synthesised files only failures absent from the unfaulted file are attributed to the fault; hangs must reproduce in three replays.",
+        "design_ref": "DESIGN.md section 3, C15",
+    },
     "C10": {
         "engine": "engine-G",
         "technique": "property-based testing (stateful): generated skinned shapes and sample shapes x sequences of partition operations; invariants (exact cover, vertex maps, mapped triangles, bone limit, weight normalisation, bone slots, dismember alignment, read-back) after every step and on the saved-and-reloaded file",
